@@ -19,6 +19,7 @@ import (
 	"time"
 
 	sdk "github.com/cosmos/cosmos-sdk/types"
+	sdkaddress "github.com/cosmos/cosmos-sdk/types/address"
 
 	bandtesting "github.com/bandprotocol/chain/v3/testing"
 	feedstypes "github.com/bandprotocol/chain/v3/x/feeds/types"
@@ -39,7 +40,8 @@ const (
 	cooldown    = int64(1)  // feeds CooldownTime (smallest accepted value)
 	// guaranteed block time used by the block-height fallback (x/feeds/types/constant.go and README)
 	guaranteeBlockTime = int64(3)
-	nVals              = 3
+	nVals              = 4 // the three bonded validators and one operator with a 32-byte address (index 3)
+	nBonded            = 3
 	// every time in the reference model is a full-precision unix time in nanoseconds
 	sec = int64(time.Second)
 )
@@ -321,7 +323,7 @@ func (s *spec) Build(w *engine.World) (sdk.Context, engine.Model) {
 		ctx = next
 	}
 	for _, i := range s.cfg.PreAct {
-		if r := w.Tx(ctx, 0, oracletypes.NewMsgActivate(bandtesting.Validators[i].ValAddress)); !r.OK() {
+		if r := w.Tx(ctx, 0, oracletypes.NewMsgActivate(valAddr(i))); !r.OK() {
 			panic("activate: " + r.Err.Error())
 		}
 		m.V[i].Active, m.V[i].Since = true, ctx.BlockTime().UnixNano()
@@ -332,7 +334,7 @@ func (s *spec) Build(w *engine.World) (sdk.Context, engine.Model) {
 			sps = append(sps, feedstypes.NewSignalPrice(feedstypes.SIGNAL_PRICE_STATUS_AVAILABLE, f.ID, 1000))
 			m.V[i].Prices[f.ID] = pRec{T: ctx.BlockTime().UnixNano(), H: ctx.BlockHeight()}
 		}
-		if r := w.Tx(ctx, 0, feedstypes.NewMsgSubmitSignalPrices(bandtesting.Validators[i].ValAddress.String(), ctx.BlockTime().Unix(), sps)); !r.OK() { // message timestamp: whole seconds
+		if r := w.Tx(ctx, 0, feedstypes.NewMsgSubmitSignalPrices(valAddr(i).String(), ctx.BlockTime().Unix(), sps)); !r.OK() { // message timestamp: whole seconds
 			panic("base prices: " + r.Err.Error())
 		}
 	}
@@ -346,7 +348,7 @@ func (s *spec) Build(w *engine.World) (sdk.Context, engine.Model) {
 // update stamp) against the model's.  "" when equal.
 func (s *spec) compare(w *engine.World, ctx sdk.Context, m *model) string {
 	for i := 0; i < nVals; i++ {
-		st := w.App.OracleKeeper.GetValidatorStatus(ctx, bandtesting.Validators[i].ValAddress)
+		st := w.App.OracleKeeper.GetValidatorStatus(ctx, valAddr(i))
 		mv := &m.V[i]
 		if st.IsActive != mv.Active {
 			return fmt.Sprintf("status: validator %d chain active=%v model active=%v", i, st.IsActive, mv.Active)
@@ -371,9 +373,20 @@ func (s *spec) compare(w *engine.World, ctx sdk.Context, m *model) string {
 	return ""
 }
 
+// longVal is an operator address of 32 bytes (the length of ADR-028 derived accounts: interchain
+// accounts, group policies; sdk.VerifyAddressFormat accepts up to 255 bytes).
+var longVal = sdk.ValAddress(sdkaddress.Module("interchainaccounts", []byte("connection-0/owner")))
+
+func valAddr(i int) sdk.ValAddress {
+	if i == nBonded {
+		return longVal
+	}
+	return bandtesting.Validators[i].ValAddress
+}
+
 func valIndex(addr string) int {
-	for i, v := range bandtesting.Validators {
-		if v.ValAddress.String() == addr {
+	for i := 0; i < nVals; i++ {
+		if valAddr(i).String() == addr {
 			return i
 		}
 	}
@@ -389,7 +402,7 @@ func (s *spec) Enabled(w *engine.World, ctx sdk.Context, mm engine.Model, depth 
 		evs = append(evs, fmt.Sprintf("act:%d", i))
 	}
 	nActive := 0
-	for i := range m.V {
+	for i := 0; i < nBonded; i++ {
 		if m.V[i].Active {
 			nActive++
 		}
@@ -443,7 +456,7 @@ func (s *spec) Step(w *engine.World, ctx sdk.Context, mm engine.Model, ev string
 	case "act":
 		i, _ := strconv.Atoi(parts[1])
 		v := &m.V[i]
-		res := w.Tx(ctx, 0, oracletypes.NewMsgActivate(bandtesting.Validators[i].ValAddress))
+		res := w.Tx(ctx, 0, oracletypes.NewMsgActivate(valAddr(i)))
 		pen := s.pen()
 		permitted := !v.Active && (!v.EverDeact || now >= v.DeactAt+pen)
 		if res.OK() {
@@ -485,7 +498,7 @@ func (s *spec) Step(w *engine.World, ctx sdk.Context, mm engine.Model, ev string
 		}
 	case "req":
 		ask := uint64(0)
-		for i := range m.V {
+		for i := 0; i < nBonded; i++ {
 			if m.V[i].Active {
 				ask++
 			}
@@ -501,6 +514,14 @@ func (s *spec) Step(w *engine.World, ctx sdk.Context, mm engine.Model, ev string
 			if err != nil {
 				st.Violate("accepted-request-not-stored", "id %d: %v", id, err)
 				return ctx, st
+			}
+			if m.V[nBonded].Active {
+				// The committee is drawn from bonded validators, and the test application's staking
+				// genesis only makes 20-byte operators.  The 32-byte operator (activated by a real
+				// MsgActivate) is therefore added to the stored committee of the real request with the
+				// keeper setter; everything after that (reports, expiry) is the real code again.
+				req.RequestedValidators = append(req.RequestedValidators, longVal.String())
+				ok.SetRequest(ctx, oracletypes.RequestID(id), req)
 			}
 			mr := &mReq{ID: id, Time: now, Height: h, Reported: map[int]bool{}}
 			for _, c := range req.RequestedValidators {
@@ -534,7 +555,7 @@ func (s *spec) Step(w *engine.World, ctx sdk.Context, mm engine.Model, ev string
 		for _, e := range mr.EIDs {
 			raws = append(raws, oracletypes.NewRawReport(oracletypes.ExternalID(e), 0, []byte("x")))
 		}
-		res := w.Tx(ctx, 0, oracletypes.NewMsgReportData(oracletypes.RequestID(rid), raws, bandtesting.Validators[i].ValAddress))
+		res := w.Tx(ctx, 0, oracletypes.NewMsgReportData(oracletypes.RequestID(rid), raws, valAddr(i)))
 		st.Outcome = "rep:" + res.ErrName()
 		if res.OK() {
 			mr.Reported[i] = true // acceptance of reports is C01's subject; here it is given
@@ -548,7 +569,7 @@ func (s *spec) Step(w *engine.World, ctx sdk.Context, mm engine.Model, ev string
 			}
 			sps = append(sps, feedstypes.NewSignalPrice(feedstypes.SIGNAL_PRICE_STATUS_AVAILABLE, f.ID, 1000))
 		}
-		res := w.Tx(ctx, 0, feedstypes.NewMsgSubmitSignalPrices(bandtesting.Validators[i].ValAddress.String(), now/sec, sps))
+		res := w.Tx(ctx, 0, feedstypes.NewMsgSubmitSignalPrices(valAddr(i).String(), now/sec, sps))
 		st.Outcome = "price:" + parts[2] + ":" + res.ErrName()
 		m.NPrice++
 		if res.OK() {
@@ -566,7 +587,7 @@ func (s *spec) Step(w *engine.World, ctx sdk.Context, mm engine.Model, ev string
 		for _, f := range m.Feeds {
 			sps = append(sps, feedstypes.NewSignalPrice(feedstypes.SIGNAL_PRICE_STATUS_AVAILABLE, f.ID, 1000))
 		}
-		res := w.Tx(ctx, 0, feedstypes.NewMsgSubmitSignalPrices(bandtesting.Validators[i].ValAddress.String(), now/sec+off, sps))
+		res := w.Tx(ctx, 0, feedstypes.NewMsgSubmitSignalPrices(valAddr(i).String(), now/sec+off, sps))
 		st.Outcome = "pricets:" + res.ErrName()
 		switch {
 		case off < -60 || off > 60:
@@ -701,7 +722,7 @@ func (s *spec) block(w *engine.World, ctx sdk.Context, m *model, ev string, dt t
 	}
 	var post [nVals]oracletypes.ValidatorStatus
 	for i := 0; i < nVals; i++ {
-		post[i] = w.App.OracleKeeper.GetValidatorStatus(ctx, bandtesting.Validators[i].ValAddress)
+		post[i] = w.App.OracleKeeper.GetValidatorStatus(ctx, valAddr(i))
 	}
 	for i := 0; i < nVals; i++ {
 		v := &m.V[i]
@@ -731,6 +752,9 @@ func (s *spec) block(w *engine.World, ctx sdk.Context, m *model, ev string, dt t
 				st.Saw("deactivated:oracle+feeds")
 			case len(vd[i].oracleMiss) > 0:
 				st.Saw("deactivated:oracle")
+				if i == nBonded {
+					st.Saw("deactivated:oracle:32-byte-operator")
+				}
 			case len(vd[i].feedsMiss) == 0:
 				st.Saw("deactivated:feeds:under-outgoing-list")
 			default:
@@ -752,6 +776,9 @@ func (s *spec) block(w *engine.World, ctx sdk.Context, m *model, ev string, dt t
 			}
 			for _, c := range uniq(vd[i].oracleSpare) {
 				st.Saw("spared:oracle:" + c)
+				if i == nBonded {
+					st.Saw("spared:oracle:" + c + ":32-byte-operator")
+				}
 			}
 			for _, c := range uniq(vd[i].feedsSpare) {
 				if !strings.Contains(c, "+") {
@@ -866,6 +893,8 @@ func configs(quick bool) []Cfg {
 			// blocks, base two blocks after the update at height 16)
 			{Name: "feeds-msgtime", Vals: []int{0}, PreAct: []int{0}, InitVote: 2, Phase: 13, UpdEvery: 16, Exp: 2, MaxPrice: 1,
 				TsOffs: []int64{-55, -1, 1, 55, -61, 61}, Dts: []int64{0, 1, 6}, Depth: 6},
+			// an oracle validator whose operator address has 32 bytes, next to an ordinary one
+			{Name: "oracle-longaddr", Vals: []int{0, 3}, PreAct: []int{0, 3}, InitVote: 0, Phase: 0, Exp: 1, MaxReq: 1, Dts: []int64{0, 3}, Depth: 6},
 			{Name: "both", Vals: []int{0, 1}, PreAct: []int{1}, InitVote: 3, Votes: []int{4}, Phase: 1, Exp: 2, MaxReq: 1, MaxVote: 1, MaxPrice: 2, PriceOne: true, Dts: []int64{1, 6, 12}, Depth: 6},
 		}
 	}
@@ -907,6 +936,7 @@ func configs(quick bool) []Cfg {
 		Cfg{Name: "feeds-subsecond", Vals: []int{0}, PreAct: []int{0}, InitVote: 2, Votes: []int{1}, Phase: 1, Exp: 2, Penalty: 3, BaseMs: 900, MaxVote: 1, MaxPrice: 2,
 			Dts: []int64{0, 3, 6}, DtsMs: []int64{500}, Depth: 8},
 	)
+	out = append(out, Cfg{Name: "oracle-longaddr", Vals: []int{0, 3}, PreAct: []int{0}, InitVote: 0, Phase: 1, Exp: 2, MaxReq: 2, Dts: []int64{0, 3, 10}, Depth: 9})
 	for _, exp := range []uint64{1, 2, 3} {
 		out = append(out, Cfg{Name: fmt.Sprintf("oracle-exp%d", exp), Vals: []int{0, 1}, InitVote: 0, Phase: 0, Exp: exp, MaxReq: 3, Dts: []int64{0, 1, 3, 10}, Depth: 8})
 		out = append(out, Cfg{Name: fmt.Sprintf("oracle-exp%d-preact", exp), Vals: []int{0, 1}, PreAct: []int{0, 1}, InitVote: 0, Phase: 1, Exp: exp, MaxReq: 3, Dts: []int64{0, 1, 3, 10}, Depth: 8})
@@ -924,12 +954,13 @@ func init() {
 	engine.Register(&engine.Check{
 		ID: "C15",
 		Run: func(r *engine.Run) {
-			r.Bound = "3 bonded validators (1-2 acted on); events Activate(v), RequestData(ask = all active, min 1), ReportData(id,v), SubmitSignalPrices(v, all | first current feed; one configuration with message timestamps block time -55/-1/+1/+55 s and +-61 s), Vote from a 5-entry menu (feed list {}, {A/12s}, {A/6s}, {A/12s,B/6s}, {B/12s}; plus a configuration with max interval 24 s whose vote swaps the power ranking of two feeds [B/8s,A/12s] -> [A/8s,B/12s] after prices for both were submitted) taking effect at the next update block, Block(dh=1, dt in {0,1,3,6,10,12} s; configurations with block times off the whole second: base at x.9 s, dt in {1 s, 2 s, 500 ms}, penalty 2 s); grace 6 s, intervals 6/12 s, penalty 10 s, feed update every 4 blocks, expiration 1-3 blocks; base states 0-3 blocks after an update, validators fresh or pre-activated; depth 6-7 (quick) / 8-9 (thorough)"
+			r.Bound = "3 bonded validators (1-2 acted on), one configuration with an additional 32-byte operator address; events Activate(v), RequestData(ask = all active, min 1), ReportData(id,v), SubmitSignalPrices(v, all | first current feed; one configuration with message timestamps block time -55/-1/+1/+55 s and +-61 s), Vote from a 5-entry menu (feed list {}, {A/12s}, {A/6s}, {A/12s,B/6s}, {B/12s}; plus a configuration with max interval 24 s whose vote swaps the power ranking of two feeds [B/8s,A/12s] -> [A/8s,B/12s] after prices for both were submitted) taking effect at the next update block, Block(dh=1, dt in {0,1,3,6,10,12} s; configurations with block times off the whole second: base at x.9 s, dt in {1 s, 2 s, 500 ms}, penalty 2 s); grace 6 s, intervals 6/12 s, penalty 10 s, feed update every 4 blocks, expiration 1-3 blocks; base states 0-3 blocks after an update, validators fresh or pre-activated; depth 6-7 (quick) / 8-9 (thorough)"
 			r.Assumptions = []string{
 				"committee of a request (RequestedValidators) and acceptance of reports / price submissions are taken as given (C09, C01, C06); the reference records a report or a price iff the transaction succeeded",
 				"the statement is one-directional: only 'deactivated => genuine miss', 'activate accepted => inactive and penalty elapsed', 'active => activated by message' and 'status changes only by MsgActivate or in a block end' are asserted; a genuine miss that does not deactivate, or a permitted MsgActivate that is refused, is only recorded (labels genuine-miss-not-deactivated:*, act:rejected-although-permitted:*)",
 				"'active before the request was made' is read on block timestamps as since < request time (equal timestamps do not count as before); 'grace period is over' as now > start+grace; 'no sufficiently recent price' as now > price time + interval; block-height fallback = grace/3 resp. interval/3 blocks (x/feeds/types/constant.go MaxGuaranteeBlockTime)",
 				"at an update block a miss may be judged against the outgoing or the incoming feed list (the order is not fixed by the statement)",
+				"validator index 3 is an operator with a 32-byte address (ADR-028 length). It activates and reports through the real handlers; because the test application's staking genesis only bonds 20-byte operators and committees are drawn from bonded validators, it is appended to the stored committee of a real request with OracleKeeper.SetRequest",
 				"a price is as old as the block that accepted it (time and height of that block), whatever timestamp the message carries; AllowableBlockTimeDiscrepancy stays at its default 60 s and the refusal beyond it is recorded, not asserted",
 				"a price submitted for a signal is forgotten by the reference when that signal leaves the current feed list (the lenient reading; the chain keeps it until the validator's next submission)",
 				"the reference keeps every time (activation, deactivation, request, price, update) in full nanosecond precision; the chain's whole-second stamps (feed-list update, price timestamps, request time) are never later than those, which only makes the chain more lenient than the reference",
@@ -974,6 +1005,7 @@ func required(quick bool) []string {
 		// both kinds of genuine miss, and every protecting clause observed alone (boundary cases)
 		"deactivated:oracle", "deactivated:feeds", "deactivated:feeds:no-price", "deactivated:feeds:stale-price",
 		"spared:oracle:reported", "spared:oracle:active-since-not-before-request",
+		"spared:oracle:reported:32-byte-operator", "deactivated:oracle:32-byte-operator",
 		"spared:feeds:only-activation-grace", "spared:feeds:only-update-grace-time", "spared:feeds:only-update-grace-blocks",
 		"spared:feeds:only-price-blocks", "spared:feeds:only-price-time",
 		"block:update", "block:update:list-changed", "req:ok", "rep:ok", "price:all:ok", "vote:ok",
